@@ -160,6 +160,11 @@ impl Runner {
     }
 
     fn raw(&mut self, line: &str) -> String {
+        self.raw_observed(line, None)
+    }
+
+    /// Execute `line`; the recorded request is `line` followed by `observe(response)` if given.
+    fn raw_observed(&mut self, line: &str, observe: Option<&dyn Fn(&str) -> String>) -> String {
         let resp = match catch_unwind(AssertUnwindSafe(|| self.ex.exec(line))) {
             Ok(r) => r,
             Err(_) => {
@@ -169,6 +174,10 @@ impl Runner {
             }
         };
         self.ops.push_str(line);
+        if let Some(f) = observe {
+            self.ops.push(' ');
+            self.ops.push_str(&f(&resp));
+        }
         self.ops.push('\n');
         self.out.push_str(&resp);
         self.out.push('\n');
@@ -177,6 +186,14 @@ impl Runner {
 
     /// Execute one op of the current case.
     pub fn op(&mut self, line: &str) -> String {
+        self.op_observed(line, None)
+    }
+
+    /// "Spec with observed choice" (DESIGN 2.2): execute `line` on the implementation, then record the
+    /// request as `line + " " + observe(response)`, so that the model receives the implementation's
+    /// choice (chunk boundaries, ...) as an input and validates it. Executors ignore the trailing
+    /// observation tokens, hence a recorded line replays to the same response.
+    pub fn op_observed(&mut self, line: &str, observe: Option<&dyn Fn(&str) -> String>) -> String {
         let mut it = line.split_ascii_whitespace();
         let key = format!("{} {}", it.next().unwrap_or(""), it.next().unwrap_or(""));
         *self.hist.entry(key).or_default() += 1;
@@ -185,7 +202,7 @@ impl Runner {
         }
         self.case_hash = (self.case_hash ^ 10).wrapping_mul(0x1000_0000_01b3);
         self.evaluations += 1;
-        let resp = self.raw(line);
+        let resp = self.raw_observed(line, observe);
         let rk = resp.split_ascii_whitespace().next().unwrap_or("").to_string();
         *self.resp_hist.entry(rk).or_default() += 1;
         if self.cur.len() < 12 {
